@@ -265,6 +265,10 @@ class Gen:
     def bounded(self, a):
         return ["mul", ["lit", 0.5], ["fn", "sin", a]]
 
+    def safe_cond(self):
+        """a comparison of a field with a literal: decided with a margin at almost every point"""
+        return [self.pick(["lt", "gt"]), self.leaf_field_only((), ()), ["lit", self.pick([0.3, -0.4, 2.5, -3])]]
+
     # -- main entry
     def expr(self, shape, free=(), depth=2):
         shape = tuple(shape)
@@ -322,6 +326,10 @@ class Gen:
                 add("zerobranch", "zerofree", 2)
             if len(self.names) >= 2:
                 add("fixedct", "zerofree", 2)
+            if len(self.unused(free)) >= 2:
+                add("zerodims", "zerofree", 2)
+            if len(self.unused(free)) >= 1:
+                add("ctreuse", "ctreuse", 3)
             if "capture" in O and len(self.names) >= 3:
                 opts.extend(["capture"] * W.get("capture", 2))
             if not free:
@@ -519,7 +527,7 @@ class Gen:
             names = list(self.draw(st.permutations(un)))[: self.pick([1, 2]) if len(un) >= 2 else 1]
             z = ["mul", ["lit", 0], self.leaf((), tuple(names))]
             other = e((), tuple(sorted(set(free) | set(names))), min(d, 1))
-            c = [self.pick(["lt", "gt"]), e((), (), 0), e((), (), 0)]
+            c = self.safe_cond()
             body = ["cond", c, z, other] if self.chance(1, 2) else ["cond", c, other, z]
             ct = ["as_tensor", body, names]
             return ["index", ct, [self.draw(st.integers(0, g - 1)) for _ in names]]
@@ -527,8 +535,52 @@ class Gen:
             # a Zero that carries the free indices, kept alive in a branch of a conditional
             z = ["mul", ["lit", 0], e((), free, min(d, 1))]
             other = e((), free, d)
-            c = [self.pick(["lt", "gt"]), e((), (), 0), e((), (), 0)]
+            c = self.safe_cond()
             return ["cond", c, z, other] if self.chance(1, 2) else ["cond", c, other, z]
+        if op == "zerodims":
+            # a Zero with two free indices of *different* extents (g and g+1), alive in a conditional branch
+            m = g + 1
+            un = self.unused(free)
+            i = self.pick(un)
+            j = self.pick([n for n in un if n != i])
+            c = self.safe_cond()
+            if self.chance(1, 2):
+                Z = ["index", ["zero", [g, m]], [i, j]]
+                T = ["index", ["list", [["list", [self.leaf((), ()) for _ in range(m)]] for _ in range(g)]], [i, j]]
+            else:
+                Z = ["index", ["zero", [m, g]], [j, i]]
+                T = ["index", ["list", [["list", [self.leaf((), ()) for _ in range(g)]] for _ in range(m)]], [j, i]]
+            x = ["cond", c, Z, T] if self.chance(1, 2) else ["cond", c, T, Z]
+            out = ["mul", ["mul", x, ["index", ["list", [self.leaf((), ()) for _ in range(m)]], [j]]], self.leaf((), (i,))]
+            return ["mul", out, self.leaf((), free)] if free else out
+        if op == "ctreuse":
+            # one component tensor indexed twice with different indices: as_tensor(b(i), (i,))[p] * as_tensor(b(i), (i,))[q]
+            un = self.unused(free)
+            if len(un) >= 3 and self.chance(1, 2):
+                # two tensors over one shared body that bind the same indices differently, indexed with the same outer index
+                i, j, k = list(self.draw(st.permutations(un)))[:3]
+                body = self.leaf((), (i, j)) if self.chance(1, 2) else e((), tuple(sorted((i, j))), min(d, 1))
+                if len(un) >= 4 and self.chance(1, 2):
+                    l_ = [n for n in un if n not in (i, j, k)][0]
+                    out = ["mul", ["index", ["as_tensor", body, [i, j]], [k, l_]], ["index", ["as_tensor", body, [j, i]], [k, l_]]]
+                    if self.chance(1, 2):
+                        out = ["sub", ["index", ["as_tensor", body, [i, j]], [k, l_]], ["index", ["as_tensor", body, [j, i]], [k, l_]]]
+                        out = ["mul", out, self.leaf((), (k, l_))]
+                else:
+                    out = ["mul", ["index", ["as_tensor", body, [i]], [k]], ["index", ["as_tensor", body, [j]], [k]]]
+                    out = ["mul", out, self.leaf((), (i, j))]
+                return ["mul", out, self.leaf((), free)] if free else out
+            i = self.pick(un)
+            ct = ["as_tensor", e((), (i,), min(d, 1)), [i]]
+            cand = [n for n in self.names if n != i] + list(range(g))
+            p_ = self.pick(cand)
+            q_ = self.pick([x_ for x_ in cand if x_ != p_])
+            out = ["mul", ["index", ct, [p_]], ["index", ct, [q_]]]
+            for n_ in (p_, q_):
+                if isinstance(n_, str) and n_ not in free:
+                    out = ["mul", out, self.leaf((), (n_,))]
+            rest = tuple(n_ for n_ in free if n_ not in (p_, q_))
+            return ["mul", out, self.leaf((), rest)] if rest else out
         if op == "capture":
             # a component tensor whose body *binds* r (a contraction), indexed from outside by the same index r:
             # as_tensor(A[r, j] * B[r], (j,))[r]  -- r then is either free outside or summed again
@@ -558,7 +610,7 @@ class Gen:
                 inner = ["as_tensor", self.leaf((), (j, r)) if self.chance(2, 3) else e((), tuple(sorted((r, j))), min(d, 1)), [r]]
                 how = self.pick(["cond", "cond", "conj", "list"])
                 if how == "cond":
-                    c = [self.pick(["lt", "gt"]), e((), (), 0), e((), (), 0)]
+                    c = self.safe_cond()
                     other = self.leaf((g,), (j,))
                     keep = ["cond", c, inner, other] if self.chance(1, 2) else ["cond", c, other, inner]
                 elif how == "conj":
